@@ -95,6 +95,7 @@ structure Files (p : Nat) where
 structure Opt where
   queue : Bool := false                      -- `InstanceOptions.ReloadQueue != nil` (--reload-interval > 0)
   needACL : Nat → Bool := fun _ => false     -- `Backend.NeedACL()` as a function of `conf`
+  repaired : Bool := true                    -- false: the code before the two `fix:` commits (historical witnesses)
 
 structure FW (p : Nat) where
   g : GWorld p := {}                         -- backends, haproxy.cfg / shard files, hasCommittedData
@@ -108,6 +109,8 @@ structure FW (p : Nat) where
   pmD : Fin p → Bool := fun _ => false
   run : Files p := {}                        -- what the running HAProxy holds
   pending : Bool := false                    -- the reload queue holds an item
+  rewriteOwed : Bool := false                -- `instance.rewriteOwed`: an update did not get past writeConfig
+  reloadOwed : Bool := false                 -- `instance.reloadOwed`: the last reload failed
 
 /-- what `haproxy -f <dir>` reads now -/
 def load (sh : Sh p) (w : FW p) : Files p :=
@@ -222,7 +225,8 @@ def setDisk (w : FW p) (d : Disk p) : FW p := { w with g := { w.g with w := { w.
 
 /-- `Instance.Reload` -/
 def reload (sh : Sh p) (f : Fault) (w : FW p) : FW p × Bool :=
-  if f.isReload then (w, true) else ({ w with run := load sh w }, false)
+  if f.isReload then ({ w with reloadOwed := true }, true)
+  else ({ w with run := load sh w, reloadOwed := false }, false)
 
 /-- state of one `HAProxyUpdate` after the dynamic update (stage 5) -/
 structure Mid (p : Nat) where
@@ -239,51 +243,60 @@ def shrinkFlags (w : FW p) : FW p :=
            pmI := fun x => if matched w.g.w.store x then w.pmD x else w.pmI x }
 
 /-- the loop of WriteBackendMaps over ItemsAdd calls `NeedACL()` and sets `PathsMap` -/
-def mapFlags (s : Store p) (w : FW p) : FW p :=
-  { w with pcI := fun x => (s.add x).isSome || w.pcI x
-           pmI := fun x => (s.add x).isSome || w.pmI x }
+def mapFlags (vis : Fin p → Option Content) (w : FW p) : FW p :=
+  { w with pcI := fun x => (vis x).isSome || w.pcI x
+           pmI := fun x => (vis x).isSome || w.pmI x }
 
-def bmWrite (o : Opt) (s : Store p) (w : FW p) : FW p :=
-  { w with bm := fun x => match s.add x with
+def bmWrite (o : Opt) (vis : Fin p → Option Content) (w : FW p) : FW p :=
+  { w with bm := fun x => match vis x with
       | some c => if o.needACL (conf c) then some (conf c) else w.bm x
       | none => w.bm x }
 
-def bmFiles (o : Opt) (s : Store p) : Bool :=
-  anyFin fun x => match s.add x with | some c => o.needACL (conf c) | none => false
+def bmFiles (o : Opt) (vis : Fin p → Option Content) : Bool :=
+  anyFin fun x => match vis x with | some c => o.needACL (conf c) | none => false
+
+/-- `config.ForceRewrite()` on the backends: `AllShardsChanged` -/
+def allShards (sh : Sh p) (s : Store p) : Store p :=
+  { s with changed := fun k => decide (k < sh.n) || s.changed k }
 
 /-- stage 5 -/
-def dynStage (sh : Sh p) (bad : Nat → Bool) (w0 : FW p) (s0 : Store p) (hs0 hs1 : HStore p) (w4 : FW p) : Mid p :=
+def dynStage (sh : Sh p) (bad : Nat → Bool) (rewrite : Bool) (w0 : FW p) (s0 : Store p) (hs0 hs1 : HStore p)
+    (w4 : FW p) : Mid p :=
   -- `hasCommittedData() && checkConfigChange()`: without committed data no command is sent
   let dynRuns := w0.g.committed
   { w := if dynRuns then { w4 with run := { w4.run with back := dynRun s0 bad w4.run.back } } else w4
     s := if dynRuns then dynStore sh s0 else s0
     hs := hs1
     sends := if dynRuns then totalSends s0 else 0
-    updated := dynRuns && !w0.tcp.changed && !hs0.isChanged && backendUpdated s0 bad w4.run.back w0.pcD
+    updated := dynRuns && !w0.tcp.changed && !hs0.isChanged && backendUpdated s0 bad w4.run.back w0.pcD && !rewrite
     bchg := backChanged s0 }
 
 /-- stages 1 to 5; `Except.error` = the update returned at a failed write -/
 def pre (o : Opt) (sh : Sh p) (f : Fault) (w : FW p) : Except (Res p) (Mid p) :=
-  let s0 := shrink sh w.g.w.store
-  let hs0 := w.h.shrink
-  let w := shrinkFlags w
-  -- 1
-  if w.tcp.changed && f == .tcpMaps then .error { w := commitAll w s0 hs0, err := true } else
-  let w1 : FW p := if w.tcp.changed then { w with tcp := { w.tcp with map := w.tcp.want } } else w
+  -- `rewrite := i.rewriteOwed; i.rewriteOwed = true; if rewrite { i.config.ForceRewrite() }`
+  let rewrite := o.repaired && w.rewriteOwed
+  let s0 := if rewrite then allShards sh (shrink sh w.g.w.store) else shrink sh w.g.w.store
+  let hs0 : HStore p := if rewrite then { w.h.shrink with mapsNil := true } else w.h.shrink
+  let w : FW p := { shrinkFlags w with rewriteOwed := true }
+  -- 1  guard `!tcpservices.Changed() && !rewriteAll`; without a tcp service nothing is written
+  let tcpWrites := w.tcp.changed || (rewrite && w.tcp.want != 0)
+  if tcpWrites && f == .tcpMaps then .error { w := commitAll w s0 hs0, err := true } else
+  let w1 : FW p := if tcpWrites then { w with tcp := { w.tcp with map := w.tcp.want } } else w
   -- 2
   if !hSkip hs0 && f == .frontMaps then .error { w := commitAll w1 s0 hs0, err := true } else
   let hs1 := hWrite hs0
   let w1 : FW p := { w1 with h := hs1 }
-  -- 3
+  -- 3  guard `!backends.Changed() && !rewriteAll`; ItemsAdd, or Items when everything is rewritten
   let bchg := backChanged s0
-  let w2 : FW p := if bchg then mapFlags s0 w1 else w1
-  if bchg && bmFiles o s0 && f == .backMaps then .error { w := commitAll w2 s0 hs1, err := true } else
-  let w3 : FW p := if bchg then bmWrite o s0 w2 else w2
+  let vis : Fin p → Option Content := if rewrite then s0.items else s0.add
+  let w2 : FW p := if bchg || rewrite then mapFlags vis w1 else w1
+  if (bchg || rewrite) && bmFiles o vis && f == .backMaps then .error { w := commitAll w2 s0 hs1, err := true } else
+  let w3 : FW p := if bchg || rewrite then bmWrite o vis w2 else w2
   -- 4
   if w.tcp.want != 0 && f == .crtLists then .error { w := commitAll w3 s0 hs1, err := true } else
   let w4 : FW p := if w.tcp.want != 0 then { w3 with tcp := { w3.tcp with crt := w.tcp.want } } else w3
-  -- 5
-  .ok (dynStage sh f.bad w s0 hs0 hs1 w4)
+  -- 5  (`if rewrite { updated = false }` right after `updater.update()`)
+  .ok (dynStage sh f.bad rewrite w s0 hs0 hs1 w4)
 
 /-- the template dereferences `$backend.PathsMap` of every backend that needs ACLs: rendering a backend
 whose object never went through WriteBackendMaps fails (nil pointer inside the template) -/
@@ -312,8 +325,11 @@ def post (o : Opt) (sh : Sh p) (f : Fault) (m : Mid p) : Res p :=
         pcI := fun x => rendered sh m.s lim x || m.w.pcI x }
     else m.w
   if doWrite && lim.isSome then { w := commitAll w6 m.s m.hs, err := true, sends := m.sends } else
+  -- past writeConfig: `i.rewriteOwed = false`; `if updated && i.reloadOwed { updated = false }`
+  let w6 : FW p := { w6 with rewriteOwed := false }
+  let updated := m.updated && !(o.repaired && w6.reloadOwed)
   -- 7
-  if m.updated then { w := commitAll w6 m.s m.hs, sends := m.sends } else
+  if updated then { w := commitAll w6 m.s m.hs, sends := m.sends } else
   -- 8
   if o.queue then { w := commitAll { w6 with pending := true } m.s m.hs, sends := m.sends } else
   let r := reload sh f w6
@@ -505,12 +521,12 @@ def wstep (st : WState) (t : StepFact) (f : WFault) : WState :=
   -- server." for a file it never read, and the update falls back to a reload
   let changed := t.post.filter fun g => (get? st.twin g.name).map (·.srv) != some g.srv
   let knows := changed.all fun g => (get? st.run g.name).map (·.srv) == (get? st.twin g.name).map (·.srv)
-  let never := changed.all fun g => (get? st.run g.name).isNone
   let sending := decide (0 < t.sends)
   let (d2, stop2) := writeUntil blocked d1 t.post
   -- Sends of an update that reloads anyway: which of them changed a running server is not in the facts;
   -- it only matters when the reload does not follow
-  let unknown := unknown || (sending && !knows && !never) ||
+  -- (a fallback to a reload runs `alignSlots`, which the twin did not: server slots differ from then on)
+  let unknown := unknown || (sending && !knows) ||
     (sending && t.reload && (stop2 || f == .reloadSend || f == .reloadResult))
   let applied := sending && !adminFault && knows
   let needReload := t.reload || (sending && !applied)
